@@ -76,7 +76,7 @@ fn decode_level_named(u: &mut Un) -> (Level, Vec<(String, Ty, bool)>, Vec<usize>
                 }
             }
             Node::Cmd(c) => go(&mut c.level.body, u, vars, env_only),
-            Node::Pos(_) | Node::Pure(_) | Node::Fail(_) => {}
+            Node::Pos(_) | Node::Pure(_) | Node::Fail(_) | Node::Any(_) => {}
             Node::Seq(xs) | Node::Alt(xs) | Node::Adjacent(xs) => {
                 for x in xs {
                     go(x, u, vars, env_only);
